@@ -19,16 +19,16 @@ def body(c):
     c.add_part("propdoc_traces", stats)
     c.cov["traces_validated_against_impl"] = stats["episodes"]
     c.cov["evaluations"] = stats["events"]
-    c.cov["distinct_nontrivial"] = stats["episodes"]
+    c.cov["distinct_nontrivial"] = stats["distinct_nontrivial"]
     c.cov["rule"] = (
         "TLC: every history of <= MaxOps calls of PropDocMC over the bounded "
         "alphabet, 8 invariants.  Implementation: every history of depth %d "
         "over a 30-call alphabet (%d cases) plus %d random histories of %d "
         "calls with decorated descriptors and adversarial keys/values; each "
         "public call is one event whose result, errno and full getter "
-        "projection must be explained by PropDoc!Do; an episode is distinct "
-        "by its case id and non-trivial because every episode performs at "
-        "least one modifying call." % (3 if c.tier == "quick" else 4,
+        "projection must be explained by PropDoc!Do; distinct_nontrivial "
+        "counts episodes with pairwise different event sequences in which at "
+        "least one modifying call succeeded." % (3 if c.tier == "quick" else 4,
                                        stats.get("exh_cases", 0),
                                        stats.get("rand_cases", 0),
                                        stats.get("rand_len", 0)))
